@@ -482,8 +482,9 @@ class C14(Check):
                 if m2 is None:
                     ctx.violate(dict(sig, invariant="coherent_after_raise"), {"op": op}, idx)
                     return m
-                if w in ("ior", "ixor") and got_exc is None:
-                    ctx.violate(dict(sig, invariant="must_raise", want="TypeError"), {"op": op}, idx)
+                # (no exception is demanded: the statement only says a wrong-typed item is never *admitted*,
+                #  which `wrong_type_admitted` checks after every execution; e.g. `s ^= ["a", item_a]` may
+                #  legitimately drop the stray "a" while de-duplicating the operand by key)
                 return m2
             if got_exc is not None:
                 if env.enforce and collide_unequal and isinstance(got_exc, ValueError):
